@@ -42,6 +42,8 @@ def leaf(kind, ids, rng=None, text_ws=False, inline_only=False):
         return r
     if kind == "obj":
         r = {"k": "obj", "s": ids.next("o")}
+        if rng is not None and rng.random() < 0.3:
+            r["taglike"] = True
         if text_ws and rng is not None and rng.random() < 0.2:
             r["s"] = rng.choice(["\n", "\r\n", "\n  ", " "]) + r["s"]
         return r
